@@ -25,6 +25,8 @@ import (
 type ConnManager struct {
 	m     map[uuid.UUID]*Conn
 	mutex *sync.RWMutex
+	// stopped is true between Stop and the next Start: connections arriving then are closed.
+	stopped bool
 }
 
 // NewConnManager returns a connection map.
@@ -39,6 +41,11 @@ func NewConnManager() *ConnManager {
 func (mgr *ConnManager) AddConn(c *Conn) {
 	mgr.mutex.Lock()
 	defer mgr.mutex.Unlock()
+	if mgr.stopped {
+		// Stop already closed the registered connections: this one must not outlive it.
+		c.Close()
+		return
+	}
 	uuid := c.UUID()
 	mgr.m[uuid] = c
 }
@@ -72,6 +79,9 @@ func (mgr *ConnManager) RemoveConn(conn *Conn) error {
 
 // Start starts the connection manager.
 func (mgr *ConnManager) Start() error {
+	mgr.mutex.Lock()
+	defer mgr.mutex.Unlock()
+	mgr.stopped = false
 	return nil
 }
 
@@ -94,6 +104,9 @@ func (mgr *ConnManager) Close() error {
 
 // Stop closes all connections.
 func (mgr *ConnManager) Stop() error {
+	mgr.mutex.Lock()
+	mgr.stopped = true
+	mgr.mutex.Unlock()
 	if err := mgr.Close(); err != nil {
 		return err
 	}
